@@ -80,3 +80,64 @@ def vdot(tvec, M):
             acc = acc + v[r] * M[r, j]
         out.append(acc)
     return out
+
+
+def abstract_stages(code, stages, rng, digits=50):
+    """Lemma extraction for nested compositions (keeps each normal-form query small whatever the code's way of writing an expression).
+
+    stages: [(S_j, y_j)] in order, S_j a fresh variable, y_j the specification of the j-th intermediate value written over the inputs and S_(j-1).
+    For each stage, the sub-terms of `code` whose 50-digit fingerprint at a random point equals that of y_j are candidates; the first one PROVED equal to y_j by
+    the exact normal form is replaced by S_j (congruence: equals may be substituted for equals).  Returns the abstracted code term; nothing is assumed -- if no
+    sub-term can be proved equal the term is returned unchanged and the caller's obligation decides (possibly slowly)."""
+    from fractions import Fraction as Q
+    from pyvc import terms as T, poly as P
+
+    code = T.lift(code)
+    env = {}
+    names = set(T.free_vars(code))
+    for _, y in stages:
+        names |= set(T.free_vars(T.lift(y)))
+    stage_names = {T._varname(S) for S, _ in stages}
+    for v in sorted(names - stage_names):
+        env[v] = Q(rng.randint(100, 900), 1000)
+    for S, y in stages:
+        try:
+            val = T.evalmp(T.lift(y), env, digits)
+        except Exception:  # noqa: BLE001
+            return code
+        env[T._varname(S)] = val
+        seen, stack, cands = set(), [code.n], []
+        while stack:
+            n = stack.pop()
+            if n in seen:
+                continue
+            seen.add(n)
+            stack.extend(T.children(n))
+            if T._nodes[n][0] in ("c", "v"):
+                continue
+            try:
+                v = T.evalmp(T.Sym(n), env, digits)
+            except Exception:  # noqa: BLE001
+                continue
+            if abs(v - val) <= abs(val) * 10 ** (-(digits - 10)) + 10 ** (-(digits - 5)):
+                cands.append(n)
+        for n in sorted(cands, key=lambda n_: -T.dag_size(T.Sym(n_))):
+            try:
+                ok, _ = P.prove_zero(T.Sym(n) - T.lift(y), P.NFContext())
+            except Exception:  # noqa: BLE001
+                ok = False
+            if ok:
+                code = T.subst(code, {}, nodes={n: S})
+                break
+    return code
+
+
+def expand_stages(expr, stages):
+    """put the definitions of the lemma variables back (latest first): used on the specification side for stages no sub-term of the code was matched with"""
+    from pyvc import terms as T
+
+    expr = T.lift(expr)
+    for S, y in reversed(stages):
+        if T._varname(S) in T.free_vars(expr):
+            expr = T.subst(expr, {T._varname(S): T.lift(y)})
+    return expr
